@@ -31,6 +31,7 @@ type quadraticHashTable[K, V any] struct {
 	entries []*hashTableEntry[K, V]
 	m       int     // The total number of entries in the hash table
 	n       int     // The number of key-values stored in the hash table
+	t       int     // The number of soft-deleted entries (tombstones) still occupying a slot
 	minLF   float32 // The minimum load factor before resizing (shrinking) the hash table
 	maxLF   float32 // The maximum load factor before resizing (expanding) the hash table
 
@@ -143,6 +144,7 @@ func (ht *quadraticHashTable[K, V]) resize(m int) {
 	ht.entries = newHT.entries
 	ht.m = newHT.m
 	ht.n = newHT.n
+	ht.t = newHT.t
 }
 
 // Size returns the number of key-values in the hash table.
@@ -157,8 +159,14 @@ func (ht *quadraticHashTable[K, V]) IsEmpty() bool {
 
 // Put adds a new key-value to the hash table.
 func (ht *quadraticHashTable[K, V]) Put(key K, val V) {
-	if ht.loadFactor() >= ht.maxLF {
-		ht.resize(2 * ht.m)
+	// Soft-deleted entries keep occupying their slots, so they count towards the load that triggers a rehash.
+	// Otherwise, the empty slots that terminate every probe sequence can run out.
+	if float32(ht.n+ht.t)/float32(ht.m) >= ht.maxLF {
+		if ht.loadFactor() >= ht.maxLF {
+			ht.resize(2 * ht.m)
+		} else {
+			ht.resize(ht.m) // Rehash in place to drop the soft-deleted entries
+		}
 	}
 
 	var i int
@@ -168,6 +176,7 @@ func (ht *quadraticHashTable[K, V]) Put(key K, val V) {
 			// Reviving a soft-deleted key adds a key-value again
 			if ht.entries[i].deleted {
 				ht.n++
+				ht.t--
 			}
 
 			ht.entries[i].val = val
@@ -216,6 +225,7 @@ func (ht *quadraticHashTable[K, V]) Delete(key K) (V, bool) {
 	val := ht.entries[i].val
 	ht.entries[i].deleted = true
 	ht.n--
+	ht.t++
 
 	// During resizing, soft-deleted keys are removed, and remaining active keys are rehashed
 	if ht.loadFactor() <= ht.minLF {
@@ -229,6 +239,7 @@ func (ht *quadraticHashTable[K, V]) Delete(key K) (V, bool) {
 func (ht *quadraticHashTable[K, V]) DeleteAll() {
 	ht.entries = make([]*hashTableEntry[K, V], ht.m)
 	ht.n = 0
+	ht.t = 0
 }
 
 // String returns a string representation of the hash table.
